@@ -149,6 +149,75 @@ pub fn r_step(t: &R) -> Option<R> {
     }
 }
 
+// ---- C06: reference weak-head normaliser, full normaliser and erasure (written from the rules of the reference
+// relation: beta with an unevaluated argument, unfolding of a whole definition group, primitives on literals) ----
+pub fn r_whnf(t: &R, fuel: &mut u32) -> Option<R> {
+    if *fuel == 0 { return None; }
+    *fuel -= 1;
+    let R::Node(k, kids) = t else { return Some(t.clone()) };
+    if r_value(t) { return Some(t.clone()); }
+    if *k == K::App && kids.len() == 2 {
+        let f = r_whnf(&kids[0], fuel)?;
+        return match r_prim(k, &f, &kids[1]) {
+            Some(r) => r_whnf(&r, fuel),
+            None => Some(R::Node(K::App, vec![f, kids[1].clone()])),
+        };
+    }
+    if is_binary(k) && kids.len() == 2 {
+        let a = r_whnf(&kids[0], fuel)?;
+        let b = r_whnf(&kids[1], fuel)?;
+        return Some(r_prim(k, &a, &b).unwrap_or_else(|| R::Node(k.clone(), vec![a, b])));
+    }
+    if *k == K::Neg && kids.len() == 1 {
+        let a = r_whnf(&kids[0], fuel)?;
+        return Some(match lit_of(&a) { Some(x) => lit(-x), None => R::Node(K::Neg, vec![a]) });
+    }
+    if *k == K::If && kids.len() == 3 {
+        let c = r_whnf(&kids[0], fuel)?;
+        return match &c {
+            R::Node(K::True, _) => r_whnf(&kids[1], fuel),
+            R::Node(K::False, _) => r_whnf(&kids[2], fuel),
+            _ => Some(R::Node(K::If, vec![c, kids[1].clone(), kids[2].clone()])),
+        };
+    }
+    if *k == K::Let && kids.len() % 2 == 1 {
+        let m = (kids.len() - 1) / 2;
+        if m == 0 { return r_whnf(&kids[0], fuel); }
+        if size_of(t) > 4000 { return None; }
+        return r_whnf(&r_let_subst(kids, m), fuel);
+    }
+    None
+}
+
+pub fn size_of(t: &R) -> usize { match t { R::Var(_) => 1, R::Node(_, k) => 1 + k.iter().map(size_of).sum::<usize>() } }
+
+// full normal form: weak-head normalise, then normalise every child
+pub fn r_nf(t: &R, fuel: &mut u32) -> Option<R> {
+    let w = r_whnf(t, fuel)?;
+    match &w {
+        R::Var(_) => Some(w),
+        R::Node(k, kids) => {
+            let mut out = vec![];
+            for c in kids { out.push(r_nf(c, fuel)?); }
+            Some(R::Node(k.clone(), out))
+        }
+    }
+}
+
+// what the conversion check ignores: the annotation of a function parameter, the annotations of a group
+pub fn r_erase(t: &R) -> R {
+    match t {
+        R::Var(_) => t.clone(),
+        R::Node(k, kids) => {
+            let n = kids.len();
+            R::Node(k.clone(), kids.iter().enumerate().map(|(i, c)| {
+                let erased = (matches!(k, K::Lambda(_)) && i == 0) || (*k == K::Let && i < (n - 1) / 2);
+                if erased { R::Node(K::Type, vec![]) } else { r_erase(c) }
+            }).collect())
+        }
+    }
+}
+
 // ---- raw parser trees and the reference left-association ------------------------------------------
 #[derive(Clone, PartialEq, Eq, Debug)]
 pub struct Raw { pub kind: String, pub group: bool, pub kids: Vec<Raw> }
